@@ -1,9 +1,14 @@
 (* Model of batch construction in jade/hpc/hpc_submitter.py:
      _BatchJobs (try_append, is_job_blocked), HpcSubmitter._make_batch, _get_available_jobs[_by_time],
-     _submit_batches, and the group loop of HpcSubmitter.run.
+     _submit_batches, and the group loop of HpcSubmitter.run (the round of a submission that is NOT canceled:
+     on a canceled submission run() skips the loop, which is C14's subject).
    Job names and group names are opaque (N).  Durations: estimates in minutes (Z), limits in seconds.
+   The three comparisons (time test and size test of try_append, JobQueue.is_full) come from
+   Gen/BatchGen.v, regenerated from the source on every check run.
    Aliasing noted: the jobs handed to _make_batch are the cluster's Job objects; the blocked_by that
    reaches config_batch_N.json is the cluster job's REMAINING blocker set (set_blocking_jobs).
+   Not modelled: JADE_SKIP_SORT_BY_TIME (time-based lists are always sorted here), singularity wrapper
+   scripts, the text of the scripts (C18).  Membership tests by job name assume unique job names.
    No proofs here. *)
 From Coq Require Import List ZArith NArith Bool Arith.
 From Jade Require Import Base.
